@@ -122,8 +122,8 @@ PROPS = {
         rule=("rapid-generated experiments of four kinds. Non-trivial: MQ - >= 64 symbols and >= 1 output byte 0xFF; T1 - >= 2 bit-planes and (height > 4 or style != 0); "
               "DWT - levels >= 1 and min(w,h) >= 2; RCT - >= 1 triple. Distinct = hash of the case."),
         assumptions=COMMON_ASSUME,
-        quick=dict(shards=16, checks=600, extra=["TestStyles", "TestExhaustive"], timeout=900),
-        thorough=dict(shards=16, checks=12000, extra=["TestStyles", "TestExhaustive"], timeout=3400),
+        quick=dict(shards=16, checks=600, extra=["TestStyles", "TestExhaustive", dict(run="TestRaw", shards=8)], timeout=900),
+        thorough=dict(shards=16, checks=12000, extra=["TestStyles", "TestExhaustive", dict(run="TestRaw", shards=16)], timeout=3400),
     ),
     "C12": dict(
         pkg="c12",
